@@ -1,0 +1,175 @@
+//go:build verif
+
+// Bounded stand-in for C15, self comparison: two constructed inputs found by reviewing the unchanged library.
+// Both fail on the unchanged tree and are recorded as known findings (FINDING lines), see /verif/known_findings.json.
+package pals
+
+import (
+	"fmt"
+	"math/rand"
+	"os"
+	"testing"
+
+	"github.com/biogo/biogo/align/pals/dp"
+	"github.com/biogo/biogo/align/pals/filter"
+	"github.com/biogo/biogo/alphabet"
+	"github.com/biogo/biogo/morass"
+	"github.com/biogo/biogo/seq/linear"
+)
+
+func d1Rand(r *rand.Rand, n int) []byte {
+	b := make([]byte, n)
+	for i := range b {
+		b[i] = "ACGT"[r.Intn(4)]
+	}
+	return b
+}
+
+func d1SelfAlign(t *testing.T, s []byte, minLen int, minId float64) (dp.Hits, filter.Params) {
+	sq := linear.NewSeq("s", alphabet.BytesToLetters(s), alphabet.DNA)
+	m, err := morass.New(filter.Hit{}, "verifc15s1", os.TempDir(), 1<<16, false)
+	if err != nil {
+		t.Fatal(err)
+	}
+	defer m.CleanUp()
+	p := New(sq, sq, true, m, 0, nil, nil)
+	if err := p.Optimise(minLen, minId); err != nil {
+		t.Fatal(err)
+	}
+	if err := p.BuildIndex(); err != nil {
+		t.Fatal(err)
+	}
+	hits, err := p.Align(false)
+	if err != nil {
+		t.Fatal(err)
+	}
+	return hits, *p.FilterParams
+}
+
+func d2Rand(r *rand.Rand, n int) []byte {
+	b := make([]byte, n)
+	for i := range b {
+		b[i] = "ACGT"[r.Intn(4)]
+	}
+	return b
+}
+
+func d2RevComp(b []byte) []byte {
+	o := make([]byte, len(b))
+	for i, c := range b {
+		o[len(b)-1-i] = map[byte]byte{'A': 'T', 'C': 'G', 'G': 'C', 'T': 'A'}[c]
+	}
+	return o
+}
+
+func d2Align(t *testing.T, target, query []byte, self, comp bool, minLen int, minId float64) dp.Hits {
+	ts := linear.NewSeq("t", alphabet.BytesToLetters(target), alphabet.DNA)
+	qs := ts
+	if !self {
+		qs = linear.NewSeq("q", alphabet.BytesToLetters(query), alphabet.DNA)
+	}
+	m, err := morass.New(filter.Hit{}, "verifc15s2", os.TempDir(), 1<<16, false)
+	if err != nil {
+		t.Fatal(err)
+	}
+	defer m.CleanUp()
+	p := New(ts, qs, self, m, 0, nil, nil)
+	if err := p.Optimise(minLen, minId); err != nil {
+		t.Fatal(err)
+	}
+	if err := p.BuildIndex(); err != nil {
+		t.Fatal(err)
+	}
+	hits, err := p.Align(comp)
+	if err != nil {
+		t.Fatal(err)
+	}
+	return hits
+}
+
+// d2Seq builds a 5000 base random sequence holding a 600 base element at a and
+// the reverse complement of a 98% identical copy at b.
+func d2Seq(a, b int) []byte {
+	r := rand.New(rand.NewSource(2))
+	s := d2Rand(r, 5000)
+	rep := d2Rand(r, 600)
+	copy(s[a:], rep)
+	cp := append([]byte(nil), rep...)
+	for i := range cp {
+		if r.Float64() < 0.02 {
+			c := cp[i]
+			for c == cp[i] {
+				c = "ACGT"[r.Intn(4)]
+			}
+			cp[i] = c
+		}
+	}
+	copy(s[b:], d2RevComp(cp))
+	return s
+}
+
+// d2Found reports whether some hit (target coords x reverse-complemented query
+// coords) covers >= 80% of the inverted repeat, in either of the two symmetric
+// placements.
+func d2Found(hits dp.Hits, n, a, b, l int) bool {
+	ov := func(a0, a1, b0, b1 int) int {
+		if b0 > a0 {
+			a0 = b0
+		}
+		if b1 < a1 {
+			a1 = b1
+		}
+		if a1 < a0 {
+			return 0
+		}
+		return a1 - a0
+	}
+	for _, h := range hits {
+		for _, c := range [][2]int{{a, b}, {b, a}} {
+			qb := n - (c[1] + l)
+			if ov(h.Abpos, h.Aepos, c[0], c[0]+l) >= l*8/10 && ov(h.Bbpos, h.Bepos, qb, qb+l) >= l*8/10 {
+				return true
+			}
+		}
+	}
+	return false
+}
+
+func TestVerifBounded_C15_SelfComparison(t *testing.T) {
+	cases := 0
+	// (1) 311 random bases in which one 9-mer recurs 10 bases downstream: there is no repeat of the minimum
+	// length, and the trivial self match must not be reported
+	{
+		cases++
+		r := rand.New(rand.NewSource(1))
+		s := d1Rand(r, 311)
+		copy(s[110:], s[100:109])
+		hits, _ := d1SelfAlign(t, s, 36, 0.9)
+		for _, h := range hits {
+			if h.Abpos == h.Bbpos && h.Aepos == h.Bepos {
+				fmt.Printf("FINDING id=self-trivial-match cases=1 example=%q\n", fmt.Sprintf("311 random bases (seed 1) with s[100:109] copied to 110, Optimise(36, 0.9), self comparison: hit %+v", h))
+				break
+			}
+		}
+	}
+	// (2) inverted repeat (600 bp, 98% identity) with copies at 3000 and 4000 of a 5000 bp sequence, complement
+	// strand of a self comparison; controls: the same element at 500/2000, and the same sequence compared with
+	// a copy of itself as a non-self comparison
+	{
+		const n, l, minLen, minId = 5000, 600, 200, 0.9
+		cases++
+		if hits := d2Align(t, d2Seq(500, 2000), nil, true, true, minLen, minId); !d2Found(hits, n, 500, 2000, l) {
+			t.Fatalf("inverted repeat at 500/2000 not found in self comparison: %+v", hits)
+		}
+		s := d2Seq(3000, 4000)
+		cases++
+		if hits := d2Align(t, s, append([]byte(nil), s...), false, true, minLen, minId); !d2Found(hits, n, 3000, 4000, l) {
+			t.Fatalf("inverted repeat at 3000/4000 not found in non-self complement comparison: %+v", hits)
+		}
+		cases++
+		if hits := d2Align(t, s, nil, true, true, minLen, minId); !d2Found(hits, n, 3000, 4000, l) {
+			fmt.Printf("FINDING id=self-complement-lost cases=1 example=%q\n", fmt.Sprintf("5000 random bases (seed 2), 600 bp element at 3000 and its reverse complement (98%% identity) at 4000, Optimise(200, 0.9), Align(true) with selfCompare: %d hits, none covers the repeat", len(hits)))
+		}
+	}
+	fmt.Printf("BOUNDED name=C15.self cases=%d nontrivial=%d exhaustive=false domain=%q\n", cases, cases, "4 constructed self comparisons: a 311-base sequence with a recurring 9-mer (no trivial self match), an inverted repeat at 500/2000 and at 3000/4000 of 5 kb on the complement strand (self), and the latter as a non-self comparison")
+}
